@@ -53,6 +53,8 @@ type Scenario struct {
 	StartStalled   bool              `json:"start_stalled"` // the remote's accept queue is full before the peer starts
 	StartRefused   bool              `json:"start_refused"` // nothing listens on the remote's port before the peer starts
 	FinalCloseMs   int               `json:"final_close_ms"` // how long the teardown waits for Close (default 8000)
+	ProbeOnClose   string            `json:"probe_on_close"` // when corebgp closes an inbound connection: WriteUpdate(this body) on the session's writer first
+	TwoListeners   bool              `json:"two_listeners"` // corebgp serves on two listeners; "dial" with a third argument 1 uses the first, else the last
 	HoldDownMs     int               `json:"holddown_ms"`   // shorten the 60..300 s hold-down timer to this (process-wide while the scenario runs)
 	CapsSeq        [][][2]any        `json:"caps_seq"`       // GetCapabilities returns the k-th list on its k-th call (then the last one)
 	HandlerWriteN  int               `json:"handler_write_n"` // number of WriteUpdate calls made for a handler_writes entry (default 1)
@@ -155,10 +157,24 @@ func (l *trackedListener) Accept() (net.Conn, error) {
 
 func (c *trackedConn) Close() error {
 	c.r.mu.Lock()
-	if c.rec.ClosedAt < 0 {
+	first := c.rec.ClosedAt < 0
+	if first {
 		c.rec.ClosedAt = c.r.ms()
 	}
+	w := c.r.writer
 	c.r.mu.Unlock()
+	if first && c.r.sc.ProbeOnClose != "" && w != nil {
+		// corebgp is closing the connection: the session has ended, so the writer it handed out must already refuse
+		b, _ := hex.DecodeString(c.r.sc.ProbeOnClose)
+		done := make(chan error, 1)
+		go func() { done <- w.WriteUpdate(b) }()
+		select {
+		case err := <-done:
+			c.r.recordWrite("onconnclose", err, 0)
+		case <-time.After(time.Second):
+			c.r.recordWrite("onconnclose-stuck", errors.New("did not return"), 0)
+		}
+	}
 	return c.Conn.Close()
 }
 
@@ -326,6 +342,7 @@ type runner struct {
 	plug      *plugin
 	remote    netip.Addr
 	lis       net.Listener // corebgp's listener
+	lis2      net.Listener // a second listener given to Serve (two_listeners)
 	rlis      net.Listener // remote speaker's listener (for corebgp's outbound connections)
 	rport     int
 	accepted  chan net.Conn
@@ -456,7 +473,11 @@ func (r *runner) step(st []any) error {
 	case "dial":
 		name := st[1].(string)
 		d := net.Dialer{LocalAddr: &net.TCPAddr{IP: r.remote.AsSlice()}, Timeout: 2 * time.Second}
-		c, err := d.Dial("tcp", r.lis.Addr().String())
+		target := r.lis.Addr().String()
+		if len(st) > 2 && num(st[2]) == 2 && r.lis2 != nil {
+			target = r.lis2.Addr().String()
+		}
+		c, err := d.Dial("tcp", target)
 		if err != nil {
 			cr := &ConnRec{Name: name, Dir: "in", Refused: true, done: make(chan struct{})}
 			close(cr.done)
@@ -474,6 +495,9 @@ func (r *runner) step(st []any) error {
 			src = netip.MustParseAddr(sip).AsSlice()
 		}
 		port := r.lis.Addr().(*net.TCPAddr).Port
+		if len(st) > 4 && num(st[4]) == 2 && r.lis2 != nil {
+			port = r.lis2.Addr().(*net.TCPAddr).Port
+		}
 		d := net.Dialer{LocalAddr: &net.TCPAddr{IP: src}, Timeout: 2 * time.Second}
 		c, err := d.Dial("tcp", net.JoinHostPort(st[2].(string), fmt.Sprint(port)))
 		if err != nil {
@@ -942,6 +966,13 @@ func runScenario(sc *Scenario) *Result {
 		res.Error = err.Error()
 		return res
 	}
+	if sc.TwoListeners {
+		r.lis2, err = net.Listen("tcp", lhost)
+		if err != nil {
+			res.Error = err.Error()
+			return res
+		}
+	}
 	r.rlis, err = net.Listen("tcp", net.JoinHostPort(r.remote.String(), "0"))
 	if err != nil {
 		res.Error = err.Error()
@@ -968,7 +999,12 @@ func runScenario(sc *Scenario) *Result {
 	}
 	r.serveCh = make(chan error, 1)
 	if !sc.NoServe {
-		go func() { r.serveCh <- srv.Serve([]net.Listener{&trackedListener{Listener: r.lis, r: r}}) }()
+		ls := []net.Listener{&trackedListener{Listener: r.lis, r: r}}
+		if r.lis2 != nil {
+			// the first listener is the one the scenarios use by default: the extra one goes last
+			ls = append(ls, &trackedListener{Listener: r.lis2, r: r})
+		}
+		go func() { r.serveCh <- srv.Serve(ls) }()
 		for i := 0; i < 20000 && !bgp.VerifServing(srv); i++ {
 			time.Sleep(100 * time.Microsecond)
 		}
